@@ -180,12 +180,32 @@ def gen_thresholds():
     return "\n".join(out)
 
 
+def gen_percent():
+    R = "codelimit/common/report/Report.py"
+    out = [HEADER.format(src="Report.py, SummaryTable.py, format_text.py, format_markdown.py"),
+           "From Verif Require Import Base.\nOpen Scope Z_scope.\n",
+           "(* `/` and the constant 0.001 are exact rationals here; ceil(n/d) = cdiv n d for d > 0 *)\n"]
+    out.append(t_func(R, "Report.quality_profile_percentage", "quality_profile_percentage",
+                      [("self_quality_profile", "list Z")], "Z * Z * Z * Z",
+                      aliases={"self.quality_profile()": "self_quality_profile"}))
+    for rel, qual, nm in (("codelimit/common/report/format_text.py", "print_summary", "text"),
+                          ("codelimit/common/report/format_markdown.py", "print_summary", "md")):
+        out.append(t_expr(rel, qual, f"verdict_unm_{nm}", [("unmaintainable", "Z")], "bool", if_test(0), cond=True))
+        out.append(t_expr(rel, qual, f"verdict_htm_{nm}", [("hard_to_maintain", "Z")], "bool", if_test(1), cond=True))
+    S = "codelimit/common/SummaryTable.py"
+    ps = [("unmaintainable", "Z"), ("hard_to_maintain", "Z")]
+    out.append(t_expr(S, "SummaryTable.__init__", "summary_red", ps, "bool", if_test(0), cond=True))
+    out.append(t_expr(S, "SummaryTable.__init__", "summary_orange", ps, "bool", if_test(1), cond=True))
+    out.append(t_expr(S, "SummaryTable.__init__", "summary_green", ps, "bool", if_test(2), cond=True))
+    return "\n".join(out)
+
+
 def gen_patterns():
     import capture
     return capture.gen_patterns()
 
 
-TARGETS = {"GenThresholds": gen_thresholds, "GenPatterns": gen_patterns}
+TARGETS = {"GenThresholds": gen_thresholds, "GenPatterns": gen_patterns, "GenPercent": gen_percent}
 
 
 def main(names=None):
